@@ -1,4 +1,5 @@
 pub mod case;
+pub mod cli;
 pub mod findings;
 pub mod logcap;
 pub mod parent;
